@@ -234,6 +234,23 @@ def _solver_dict_tail(body):
     return out
 
 
+def _ai_init_slice(body):
+    """AnalyticIntegrator.__init__: spike increments (`shape_starting_values`), the copy / parsing of the update expressions, the substitution dictionary
+    and the substitution loop"""
+    out, on = [], False
+    for st in body:
+        u = ast.unparse(st)
+        if u.startswith("self.shape_starting_values ="):
+            on = True
+        if u.startswith("self.update_expressions_wrapped ="):
+            break
+        if on and u != "self.reset()":
+            out.append(st)
+    if len(out) != 8:
+        raise ValueError("dictionary handling of AnalyticIntegrator.__init__ not found (%d statements)" % len(out))
+    return out
+
+
 GROUPS = {
     # ---------------------------------------------------------------------------------- C15
     "PySpikes": {
@@ -925,6 +942,43 @@ GROUPS = {
                               "(P_expr, update_expr, all_state_symbols, initial_values)"},
                 body_filter=_solver_dict_tail, result_type="δ × γ × List String × List (String × β)",
                 doc="the assembly of the returned dictionary only (the loop before it: Generated/PyPropagator.lean)")),
+        ],
+    },
+    "PyAnalyticInit": {
+        "imports": ["OdeVerif.Model.PyPrelude", "OdeVerif.Model.Glue"],
+        "file": "odetoolbox/analytic_integrator.py",
+        "functions": [
+            (("AnalyticIntegrator", "__init__"), Spec(
+                name="analyticInit", header="{α V U : Type}",
+                params=[("ev", "V → List (String × α) → α"), ("parseU", "U → U"), ("subst", "U → List (String × Glue.SubV U α) → U"),
+                        ("hasParameters", "Bool"), ("params", "List (String × α)"), ("ivs", "List (String × V)"), ("upd", "List (String × U)"), ("props", "List (String × U)")],
+                types={"starting": "List (String × α)", "ue": "List (String × U)", "sd": "List (String × Glue.SubV U α)", "subs_dict": "List (String × α)",
+                       "k": "String", "v": "V", "vu": "U", "expr": "V", "k_": "String", "v_": "α", "prop_symbol": "String", "prop_expr": "U", "param_symbol": "String", "param_expr": "α",
+                       "for:self.shape_starting_values.items()": "(String × V)", "for:self.solver_dict['parameters'].items()": "(String × α)",
+                       "for:self.update_expressions.items()": "(String × U)", "for:self.solver_dict['propagators'].items()": "(String × U)"},
+                predeclare=[("starting", "[]"), ("ue", "[]"), ("sd", "[]")],
+                rename={"v": "v"},
+                expr_map={"self.shape_starting_values.items()": "ivs", "self.solver_dict['parameters'].items()": "params", "'parameters' in self.solver_dict.keys()": "(hasParameters = true)",
+                          "self.update_expressions.items()": "ue", "self.solver_dict['propagators'].items()": "props", "{}": "[]",
+                          "type(self.update_expressions[k]) is str": "True"},
+                index_set={"subs_dict": ("subs_dict", "(Glue.assoc {old} {k} {v})")},
+                stmt_map={"self.shape_starting_values = self.solver_dict['initial_values'].copy()": [],
+                          "expr = sympy.parsing.sympy_parser.parse_expr(v, global_dict=Shape._sympy_globals)": [("expr", "v")],
+                          "self.shape_starting_values[k] = float(expr.evalf(subs=subs_dict))": [("starting", "(Glue.assoc starting k (ev expr subs_dict))")],
+                          "self.update_expressions = self.solver_dict['update_expressions'].copy()": [("ue", "upd")],
+                          "self.update_expressions[k] = sympy.parsing.sympy_parser.parse_expr(self.update_expressions[k], global_dict=Shape._sympy_globals)":
+                              [("ue", "(Glue.assoc ue k (parseU (Glue.getU ue k v)))")],
+                          "self.subs_dict = {}": [("sd", "[]")],
+                          "self.subs_dict[prop_symbol] = prop_expr": [("sd", "(Glue.assoc sd prop_symbol (Glue.SubV.expr prop_expr))")],
+                          "self.subs_dict[param_symbol] = param_expr": [("sd", "(Glue.assoc sd param_symbol (Glue.SubV.val param_expr))")],
+                          "self.update_expressions[k] = self.update_expressions[k].subs(self.subs_dict).subs(self.subs_dict)":
+                              [("ue", "(Glue.assoc ue k (subst (subst (Glue.getU ue k v) sd) sd))")]},
+                body_filter=_ai_init_slice, end_return="(starting, ue, sd)",
+                result_type="List (String × α) × List (String × U) × List (String × Glue.SubV U α)",
+                doc="the dictionary handling of the constructor. The two `.copy()` statements are pinned verbatim: the integrator works on copies "
+                    "(`starting`, `ue`), the caller's dictionary (`ivs`, `upd`, `props`, `params`) is only read. `float(expr.evalf(subs=...))` is `ev`, "
+                    "`parse_expr` of an update expression `parseU` (every expression is treated as a string: parsing a parsed expression is the identity - contract), "
+                    "`.subs(d)` is `subst`; the result is (spike increments, update expressions after substitution, substitution dictionary)")),
         ],
     },
     # ---------------------------------------------------------------------------------- C14
